@@ -121,7 +121,7 @@ func Execute(p *Plan, o ExecOpts) (*ExecOut, error) {
 		// a scenario may use what is left of the wall-clock cap, minus a small reserve for each
 		// scenario still to come (so that a large one cannot starve the rest completely)
 		remain := time.Until(o.Deadline)
-		share := remain - time.Duration(n-i-1)*8*time.Second
+		share := remain - time.Duration(n-i-1)*3*time.Second // keep a little for every later scenario
 		if share < remain/time.Duration(n-i) {
 			share = remain / time.Duration(n-i)
 		}
